@@ -9,7 +9,7 @@ VERDICT = "c20_verdict"
 EXPLAIN = "c20_explain"
 CASES_PER_FILE = 150
 TIERS = {"quick": {"n": 1200}, "thorough": {"n": 40000}}
-RULE = ("histories of add/update(iterable|mapping|kwargs) on a ThresholdCounter with w=int(1/threshold) in 1..12 or 60, "
+RULE = ("histories of add/update(iterable|mapping|kwargs|source+kwargs) on a ThresholdCounter with w=int(1/threshold) in 1..12 or 60, "
         "observed after every operation; non-trivial = at least one compaction removed a key and some key was "
         "re-added after removal; distinct = distinct canonical history hash")
 ASSUMPTIONS = ["keys are hashable with lawful __eq__/__hash__ (tokens mapped to distinct Python objects)",
@@ -68,10 +68,19 @@ def generate(rng, tier, n):
             elif r < 0.8:
                 ops.append(["upd_iter", [pick() for _ in range(rng.randint(0, 6))],
                             rng.choice(["list", "tuple", "gen", "iter"])])
-            else:
+            elif r < 0.93:
                 ops.append(["upd_map", [[k, rng.randint(0, 4)] for k in
                                         rng.sample(range(nkeys), rng.randint(0, min(3, nkeys)))],
                             rng.choice(["dict", "kwargs", "tc"])])
+            else:
+                # update(source, **kw): a positional source (iterable or mapping) together with keywords
+                if rng.random() < 0.5:
+                    first = ["upd_iter", [pick() for _ in range(rng.randint(0, 4))], rng.choice(["list", "tuple", "gen", "iter"])]
+                else:
+                    first = ["upd_map", [[k, rng.randint(0, 3)] for k in rng.sample(range(nkeys), rng.randint(0, min(3, nkeys)))],
+                             rng.choice(["dict", "tc"])]
+                kw = [[k, rng.randint(0, 3)] for k in rng.sample(range(nkeys), rng.randint(1, min(3, nkeys)))]
+                ops.append(["upd_both", first, kw])
         yield {"w": w, "threshold": t.hex(), "n": rng.randint(1, 4), "probe": rng.randrange(nkeys), "ops": ops}
 
 
@@ -99,22 +108,25 @@ def run_impl(case):
         inv[repr(kwname(i))] = 100 + i
     obs = []
     for op in case["ops"]:
-        if op[0] == "add":
-            tc.add(key(op[1]))
-        elif op[0] == "upd_iter":
-            tc.update(_arg(op[2], [key(k) for k in op[1]]))
-        else:
-            if op[2] == "kwargs":
-                tc.update(None, **{kwname(k): c for k, c in op[1]})
-            elif op[2] == "tc":
+        def source(o):
+            if o[0] == "upd_iter":
+                return _arg(o[2], [key(k) for k in o[1]])
+            if o[2] == "tc":
                 # another ThresholdCounter as the source mapping (w large: nothing dropped)
                 src = ThresholdCounter(0.0001)
-                for k, c in op[1]:
+                for k, c in o[1]:
                     for _ in range(c):
                         src.add(key(k))
-                tc.update(src)
-            else:
-                tc.update({key(k): c for k, c in op[1]})
+                return src
+            return {key(k): c for k, c in o[1]}
+        if op[0] == "add":
+            tc.add(key(op[1]))
+        elif op[0] == "upd_both":
+            tc.update(source(op[1]), **{kwname(k): c for k, c in op[2]})
+        elif op[0] == "upd_map" and op[2] == "kwargs":
+            tc.update(None, **{kwname(k): c for k, c in op[1]})
+        else:
+            tc.update(source(op))
         probe = key(case["probe"])
         obs.append({
             "total": tc.total,
@@ -140,6 +152,8 @@ def _op(op):
         return "Add %s" % cnat(op[1])
     if op[0] == "upd_iter":
         return "UpdateIter %s" % clist(cnat(k) for k in op[1])
+    if op[0] == "upd_both":
+        return "UpdateBoth (%s) %s" % (_op(op[1]), clist(cpair(cnat(k + 100), cnat(c)) for k, c in op[2]))
     off = 100 if op[2] == "kwargs" else 0
     pairs = op[1]
     if op[2] == "tc":
@@ -186,7 +200,7 @@ def distribution(d, case, obs):
     d.setdefault("w", {})
     d["w"][str(case["w"])] = d["w"].get(str(case["w"]), 0) + 1
     for op in case["ops"]:
-        k = op[0] if op[0] == "add" else op[0] + ":" + op[2]
+        k = op[0] if op[0] in ("add", "upd_both") else op[0] + ":" + op[2]
         d.setdefault("ops", {})
         d["ops"][k] = d["ops"].get(k, 0) + 1
     d["max_len_seen"] = max(d.get("max_len_seen", 0), max([o["len"] for o in obs] or [0]))
